@@ -58,7 +58,7 @@ VH_NOINSTR int main(int argc, char** argv) {
       vr_reg(&q[i].tail->data, 8, "S%d.data", i);
     }
   }
-  vr_note("init barrier %d %d %d", vh_script.nfibers, nq, k);
+  vr_note("init barrier %d %d %d %d", vh_script.nfibers, nq, rounds, k);
   vh_rt_run(k, do_op, 0);
   vr_finish("OK");
 }
